@@ -338,6 +338,55 @@ func RegisterCore(p *Program) {
 	I["runtime.KeepAlive"] = nop
 	I["runtime.SetFinalizer"] = nop
 	I["runtime.Gosched"] = nop
+	// unicode/utf8 scanning loops advance by a data-dependent size; executed from SSA the index
+	// becomes symbolic. They are re-expressed over the real DecodeRuneInString (concrete size per path).
+	runeScan := func(in *Interp, b []*Term, fr *frame) (count int, valid *Term) {
+		in.convFrame = fr
+		valid = in.ts.True
+		for pos := 0; pos < len(b); count++ {
+			r, size := in.decodeRuneSym(b[pos:])
+			if size == 1 {
+				valid = in.ts.And(valid, in.ts.Not(in.ts.Eq(r, in.ts.Const(32, 0xFFFD))))
+			}
+			pos += size
+		}
+		return
+	}
+	I["unicode/utf8.RuneCountInString"] = func(in *Interp, fr *frame, a []Value) Value {
+		n, _ := runeScan(in, a[0].(Str).B, fr)
+		return in.intConst(int64(n))
+	}
+	I["unicode/utf8.RuneCount"] = func(in *Interp, fr *frame, a []Value) Value {
+		n, _ := runeScan(in, in.sliceBytesOrNil(a[0].(Slice)), fr)
+		return in.intConst(int64(n))
+	}
+	I["unicode/utf8.ValidString"] = func(in *Interp, fr *frame, a []Value) Value {
+		_, v := runeScan(in, a[0].(Str).B, fr)
+		return v
+	}
+	I["unicode/utf8.Valid"] = func(in *Interp, fr *frame, a []Value) Value {
+		_, v := runeScan(in, in.sliceBytesOrNil(a[0].(Slice)), fr)
+		return v
+	}
+	// the number of usable CPUs is a property of the machine the agent runs on: arbitrary in 1..256,
+	// fixed for the run. Natively the replay sets GOMAXPROCS to the counterexample's value.
+	envCPUs := func(label string, slot func(e *envState) **Term) Intrinsic {
+		return func(in *Interp, fr *frame, a []Value) Value {
+			p := slot(in.env)
+			if *p == nil {
+				ts := in.ts
+				t := in.fresh(label, BV(64))
+				in.nondet = append(in.nondet, NondetVar{label, label, []*Term{t}})
+				in.model[t.ID] = 16
+				in.assume(ts.And(ts.Sle(ts.Const(64, 1), t), ts.Sle(t, ts.Const(64, 256))))
+				in.ts.Ranges[t.ID] = [2]uint64{1, 256}
+				*p = t
+			}
+			return *p
+		}
+	}
+	I["runtime.GOMAXPROCS"] = envCPUs("gomaxprocs", func(e *envState) **Term { return &e.gomaxprocs })
+	I["runtime.NumCPU"] = envCPUs("numcpu", func(e *envState) **Term { return &e.numcpu })
 	I["internal/race.Acquire"] = nop
 	I["internal/race.Release"] = nop
 	I["internal/race.ReleaseMerge"] = nop
